@@ -73,7 +73,9 @@ extern "C" float strtof(const char* __restrict s, char** __restrict end) noexcep
 
 static vf::Run* R;
 static std::string g_dir;
-static int NX = 17;              // grid edge; 17 for the vector-count sweep, 3 for the restart-root regime
+static int GX = 17, GY = 17, GZ = 17;   // grid dimensions: 17^3 for the vector-count sweep, 3^3 for the restart-root regime, the shape alphabet for the grid-shape regime
+static bool g_conn = false;             // model deck completes P1 in every layer of column (GX,GY) and asks for CPR/COFR of every connection
+static void set_grid(int x, int y, int z, bool conn) { GX = x; GY = y; GZ = z; g_conn = conn; }
 static const char* BASE_NAME = "C10B";
 static const char* RUN_NAME = "C10R";
 
@@ -89,20 +91,27 @@ struct Vectors {                                           // canonical order: T
     std::vector<std::string> rkey;                         // reader key
     std::vector<std::string> skey;                         // SummaryState key
     std::vector<std::string> unit;
-    std::vector<int> gidx;                                 // BPR global index (1-based), 0 for others
+    std::vector<int> gidx;                                 // BPR/CPR/COFR global cell index (1-based), 0 for others
+    std::vector<int> kind;                                 // 0 TIME 1 YEARS 2 FOPR 3 WOPR 4 BPR 5 CPR 6 COFR
+    std::vector<int> ord;                                  // BPR: c, connection vectors: layer
 };
 
 static Vectors make_vectors(int N) {
     Vectors v;
-    auto add = [&](const std::string& r, const std::string& s, const std::string& u, int g) { v.rkey.push_back(r); v.skey.push_back(s); v.unit.push_back(u); v.gidx.push_back(g); };
-    add("TIME", "TIME", "DAYS", 0);
-    add("YEARS", "YEARS", "YEARS", 0);
-    add("FOPR", "FOPR", "SM3/DAY", 0);
-    add("WOPR:P1", "WOPR:P1", "SM3/DAY", 0);
+    auto add = [&](const std::string& r, const std::string& s, const std::string& u, int g, int kind, int ord) { v.rkey.push_back(r); v.skey.push_back(s); v.unit.push_back(u); v.gidx.push_back(g); v.kind.push_back(kind); v.ord.push_back(ord); };
+    add("TIME", "TIME", "DAYS", 0, 0, 0);
+    add("YEARS", "YEARS", "YEARS", 0, 1, 0);
+    add("FOPR", "FOPR", "SM3/DAY", 0, 2, 0);
+    add("WOPR:P1", "WOPR:P1", "SM3/DAY", 0, 3, 0);
     for (int c = 0; c < N; ++c) {
-        int i = c % NX, j = (c / NX) % NX, k = c / (NX * NX);
-        int g = i + NX * (j + NX * k) + 1;
-        add("BPR:" + std::to_string(i + 1) + "," + std::to_string(j + 1) + "," + std::to_string(k + 1), "BPR:" + std::to_string(g), "BARSA", g);
+        int i = c % GX, j = (c / GX) % GY, k = c / (GX * GY);
+        int g = i + GX * (j + GY * k) + 1;
+        add("BPR:" + std::to_string(i + 1) + "," + std::to_string(j + 1) + "," + std::to_string(k + 1), "BPR:" + std::to_string(g), "BARSA", g, 4, c);
+    }
+    if (g_conn) for (int kw = 0; kw < 2; ++kw) for (int k = 0; k < GZ; ++k) {
+        const int g = (GX - 1) + GX * ((GY - 1) + GY * k) + 1;
+        const std::string ijk = std::to_string(GX) + "," + std::to_string(GY) + "," + std::to_string(k + 1), name = kw ? "COFR" : "CPR";
+        add(name + ":P1:" + ijk, name + ":P1:" + std::to_string(g), kw ? "SM3/DAY" : "BARSA", g, 5 + kw, k);
     }
     return v;
 }
@@ -112,6 +121,7 @@ static Vectors make_vectors(int N) {
 static double fp_id(int id) { return 10.0 * (id + 7) + 1 + (id % 9); }
 static double fp_bpr(int c, int tag, int lm) { return fp_id((c * 2 + tag) * 16 + lm); }            // <= 1 572 309
 static double fp_rate(int tag, int lm) { return 10.0 * (200000 + tag * 16 + lm) + 3; }             // 2 000 003 ...
+static double fp_conn(int kw, int layer, int tag, int lm) { return fp_id(100000 + kw * 20000 + (layer * 2 + tag) * 16 + lm); }   // 1 000 07x ... (CPR), 1 200 07x ... (COFR)
 
 struct StartDate { const char* deck; int d, m, y, hh, mi, ss; };
 static const StartDate START[2] = {{"1 JAN 2020", 1, 1, 2020, 0, 0, 0}, {"5 MAR 2021 06:30:15", 5, 3, 2021, 6, 30, 15}};
@@ -133,20 +143,26 @@ struct Setup {
 static std::string deck_text(int N, bool fmt, bool unif, int restart_step, int sv, const std::string& restart_root = BASE_NAME) {
     std::string keys = "FOPR\nWOPR\n 'P1' /\nBPR\n";
     for (int c = 0; c < N; ++c) {
-        int i = c % NX, j = (c / NX) % NX, k = c / (NX * NX);
+        int i = c % GX, j = (c / GX) % GY, k = c / (GX * GY);
         keys += " " + std::to_string(i + 1) + " " + std::to_string(j + 1) + " " + std::to_string(k + 1) + " /\n";
     }
     keys += "/\n";
-    const std::string nx = std::to_string(NX), nc = std::to_string(NX * NX * NX), nl = std::to_string(NX * NX);
-    std::string s = "RUNSPEC\nDIMENS\n " + nx + " " + nx + " " + nx + " /\nOIL\nWATER\nMETRIC\n";
+    const std::string wi = std::to_string(g_conn ? GX : 1), wj = std::to_string(g_conn ? GY : 1), wk2 = std::to_string(g_conn ? GZ : 1);
+    if (g_conn) for (const char* kw : {"CPR", "COFR"}) {
+        keys += std::string(kw) + "\n";
+        for (int k = 1; k <= GZ; ++k) keys += " 'P1' " + wi + " " + wj + " " + std::to_string(k) + " /\n";
+        keys += "/\n";
+    }
+    const std::string nc = std::to_string(GX * GY * GZ), nl = std::to_string(GX * GY);
+    std::string s = "RUNSPEC\nDIMENS\n " + std::to_string(GX) + " " + std::to_string(GY) + " " + std::to_string(GZ) + " /\nOIL\nWATER\nMETRIC\n";
     if (fmt) s += "FMTOUT\n";
     if (unif) s += "UNIFOUT\n";
-    s += "WELLDIMS\n 2 2 2 2 /\nSTART\n " + std::string(START[sv].deck) + " /\n";
+    s += "WELLDIMS\n 2 20 2 2 /\nSTART\n " + std::string(START[sv].deck) + " /\n";
     s += "GRID\nDX\n " + nc + "*10 /\nDY\n " + nc + "*10 /\nDZ\n " + nc + "*1 /\nTOPS\n " + nl + "*2000 /\nPORO\n " + nc + "*0.3 /\nPERMX\n " + nc + "*100 /\nPERMY\n " + nc + "*100 /\nPERMZ\n " + nc + "*10 /\n";
     s += "PROPS\nSOLUTION\n";
     if (restart_step > 0) s += "RESTART\n '" + restart_root + "' " + std::to_string(restart_step) + " /\n";
     s += "SUMMARY\n" + keys;
-    s += "SCHEDULE\nWELSPECS\n 'P1' 'G1' 1 1 1* OIL /\n/\nCOMPDAT\n 'P1' 1 1 1 1 OPEN 1* 1* 0.2 /\n/\nWCONPROD\n 'P1' OPEN ORAT 100 4* 50 /\n/\nTSTEP\n 12*1 /\nEND\n";
+    s += "SCHEDULE\nWELSPECS\n 'P1' 'G1' " + wi + " " + wj + " 1* OIL /\n/\nCOMPDAT\n 'P1' " + wi + " " + wj + " 1 " + wk2 + " OPEN 1* 1* 0.2 /\n/\nWCONPROD\n 'P1' OPEN ORAT 100 4* 50 /\n/\nTSTEP\n 12*1 /\nEND\n";
     return s;
 }
 
@@ -184,16 +200,24 @@ static Series run_writer(Setup& S, const std::string& basename, const std::strin
         const bool sub = (e == 'm');
         days += 0.5;
         out::Summary::BlockValues bv;
-        for (size_t idx = 4; idx < V.rkey.size(); ++idx) bv[{"BPR", V.gidx[idx]}] = fp_bpr(int(idx) - 4, tag, lm) * 1.0e5;
+        for (size_t idx = 4; idx < V.rkey.size(); ++idx) if (V.kind[idx] == 4) bv[{"BPR", V.gidx[idx]}] = fp_bpr(V.ord[idx], tag, lm) * 1.0e5;
         data::Wells wells;
-        { data::Well w; w.rates.set(data::Rates::opt::oil, -(fp_rate(tag, lm) / 86400.0)); w.bhp = 1.0e7; w.dynamicStatus = Well::Status::OPEN; wells["P1"] = w; }
+        {
+            data::Well w; w.rates.set(data::Rates::opt::oil, -(fp_rate(tag, lm) / 86400.0)); w.bhp = 1.0e7; w.dynamicStatus = Well::Status::OPEN; w.current_control.isProducer = true;
+            for (size_t idx = 4; idx < V.rkey.size(); ++idx) if (V.kind[idx] == 5) {          // one connection per layer: pressure (CPR) and oil rate (COFR)
+                data::Connection cn; cn.index = size_t(V.gidx[idx] - 1); cn.pressure = fp_conn(0, V.ord[idx], tag, lm) * 1.0e5;
+                cn.rates.set(data::Rates::opt::oil, -(fp_conn(1, V.ord[idx], tag, lm) / 86400.0));
+                w.connections.push_back(cn);
+            }
+            wells["P1"] = w;
+        }
         sum.eval(st, rstep, days * 86400.0, wells, {}, {}, {}, {}, {}, {}, bv);
         sum.add_timestep(st, rstep, sub);
         std::vector<float> row(V.rkey.size());
         for (size_t idx = 0; idx < V.rkey.size(); ++idx) row[idx] = st.has(V.skey[idx]) ? static_cast<float>(st.get(V.skey[idx])) : 0.0f;
         // harness self check: the fingerprints really are what SummaryState holds
         bool ok = row[0] == static_cast<float>(days) && row[2] == static_cast<float>(fp_rate(tag, lm)) && row[3] == row[2];
-        for (size_t idx = 4; ok && idx < V.rkey.size(); ++idx) ok = row[idx] == static_cast<float>(fp_bpr(int(idx) - 4, tag, lm));
+        for (size_t idx = 4; ok && idx < V.rkey.size(); ++idx) ok = row[idx] == static_cast<float>(V.kind[idx] == 4 ? fp_bpr(V.ord[idx], tag, lm) : fp_conn(V.kind[idx] - 5, V.ord[idx], tag, lm));
         if (!ok) R->violation("C10:harness:fingerprint", "SummaryState does not hold the fingerprint values handed to eval (harness assumption broken) N=" + std::to_string(S.N));
         out.ms.push_back({rstep, sub, days});
         out.rows.push_back(std::move(row));
@@ -267,13 +291,16 @@ template <class Rd>
 static void check_values(Rd& rd, const Expect& e, const Ctx& c, const std::vector<int>& which) {
     const size_t P = e.V->rkey.size(), n = e.rows.size();
     auto one = [&](size_t idx) {
-        const auto& v = rd.get(e.V->rkey[idx]);
+        const std::vector<float>* pv = nullptr;
+        try { pv = &rd.get(e.V->rkey[idx]); }
+        catch (const std::exception& ex) { viol(c, "keys", "get(" + e.V->rkey[idx] + ") threw for a vector that was written: " + std::string(ex.what()).substr(0, 120)); return false; }
+        const auto& v = *pv;
         if (v.size() != n) { viol(c, "count", "vector " + e.V->rkey[idx] + " has " + std::to_string(v.size()) + " ministeps, expected " + std::to_string(n)); return false; }
         for (size_t m = 0; m < n; ++m) {
             ++g_values;
             if (!feq(v[m], e.rows[m][idx], e.fmt, idx)) {
                 const std::string msg = "vector " + e.V->rkey[idx] + " (PARAMS position " + std::to_string(idx < e.ppos.size() ? e.ppos[idx] : int(idx)) + " of " + std::to_string(P) + ") ministep " + std::to_string(m) + ": read " + vf::fmt17(v[m]) + ", written " + vf::fmt17(e.rows[m][idx]);
-                if (c.reader == "esmry-select" && c.fmt && overread_signature(v[m], e.rows[m][idx]))
+                if (c.reader.rfind("esmry-select", 0) == 0 && c.fmt && overread_signature(v[m], e.rows[m][idx]))
                     R->violation("C10:esmry-select:fmt:unterminated-strtof:wrong-value", "formatted ESmry::loadData(vectList): " + msg + " (right token, exponent ran on into the bytes behind the 17-byte buffer)  [" + c.casestr + "]", "{\"case\": " + vf::jstr(c.casestr) + "}");
                 else viol(c, "value", msg);
                 return false;
@@ -331,8 +358,15 @@ static void check_axis(Rd& rd, const Expect& e, const Ctx& c, const std::vector<
     else {
         std::vector<std::string> a = rd.keywordList(), b = e.V->rkey;
         std::sort(a.begin(), a.end()); std::sort(b.begin(), b.end());
-        if (a != b) viol(c, "count", "keyword list differs from the vectors written");
+        if (a != b) {
+            std::string missing, dup, extra;
+            for (auto& k : b) if (!std::binary_search(a.begin(), a.end(), k)) { missing = k; break; }
+            for (size_t i = 1; i < a.size(); ++i) if (a[i] == a[i - 1]) { dup = a[i]; break; }
+            for (auto& k : a) if (!std::binary_search(b.begin(), b.end(), k)) { extra = k; break; }
+            viol(c, "keys", "keyword list is not the set of vectors written:" + (missing.empty() ? "" : " missing " + missing) + (dup.empty() ? "" : " listed twice " + dup) + (extra.empty() ? "" : " unexpected " + extra));
+        }
     }
+    if (P <= 100) for (size_t idx = 0; idx < P; ++idx) if (!rd.hasKey(e.V->rkey[idx])) { viol(c, "keys", "hasKey(" + e.V->rkey[idx] + ") is false for a vector that was written"); break; }
     if (rd.numberOfTimeSteps() != n) { viol(c, "count", "numberOfTimeSteps " + std::to_string(rd.numberOfTimeSteps()) + ", expected " + std::to_string(n)); return; }
     // start date
     const bool start_ok = rd.startdate() == e.start;
@@ -409,13 +443,15 @@ static std::vector<int> params_order(const std::string& spec, const Vectors& V) 
     EclIO::EclFile f(spec);
     f.loadData();
     const auto kw = f.get<std::string>("KEYWORDS"); const auto wg = f.get<std::string>("WGNAMES"); const auto nums = f.get<int>("NUMS");
-    std::map<int, int> bpr; for (size_t idx = 0; idx < V.rkey.size(); ++idx) if (V.gidx[idx] > 0) bpr[V.gidx[idx]] = int(idx);
+    std::map<int, int> bpr, cpr, cofr; for (size_t idx = 0; idx < V.rkey.size(); ++idx) if (V.gidx[idx] > 0) (V.kind[idx] == 4 ? bpr : V.kind[idx] == 5 ? cpr : cofr)[V.gidx[idx]] = int(idx);
     std::vector<int> out; std::set<int> used;
     if (kw.size() != V.rkey.size() || wg.size() != kw.size() || nums.size() != kw.size()) return {};
     for (size_t p = 0; p < kw.size(); ++p) {
         int idx = -1;
         if (kw[p] == "TIME") idx = 0; else if (kw[p] == "YEARS") idx = 1; else if (kw[p] == "FOPR") idx = 2; else if (kw[p] == "WOPR" && wg[p] == "P1") idx = 3;
         else if (kw[p] == "BPR") { auto it = bpr.find(nums[p]); if (it != bpr.end()) idx = it->second; }
+        else if (kw[p] == "CPR" && wg[p] == "P1") { auto it = cpr.find(nums[p]); if (it != cpr.end()) idx = it->second; }
+        else if (kw[p] == "COFR" && wg[p] == "P1") { auto it = cofr.find(nums[p]); if (it != cofr.end()) idx = it->second; }
         if (idx < 0 || !used.insert(idx).second) return {};
         out.push_back(idx);
     }
@@ -465,6 +501,8 @@ struct CaseGroup {
     std::unique_ptr<Setup> baseS;        // the base run's deck (base > 0)
     Series baseSeries;
     std::unordered_set<uint64_t> seen;   // file+model states already read back in this group
+    std::string tag;                     // appended to reader names in violation keys ("+shape" for the grid-shape regime)
+    std::string prefix;                  // prepended to the case string ("SHAPE dims=4x2x3 ")
 };
 
 static std::string case_string(int N, bool fmt, bool unif, int base, const std::string& script) {
@@ -488,11 +526,12 @@ static int g_reports_printed = 0;
 
 static void run_case(CaseGroup& G, const std::string& script) {
     Setup& S = *G.run;
-    const std::string casestr = case_string(S.N, S.fmt, S.unif, S.base, script);
+    const std::string casestr = G.prefix + case_string(S.N, S.fmt, S.unif, S.base, script);
     R->current(casestr);
     R->evaluations++;
     const std::string cfg = std::string(S.fmt ? "fmt" : "unf") + ":" + (S.unif ? "unif" : "multi");
     const bool withbase = S.base > 0;
+    const std::string rn_full = "esmry-full" + G.tag, rn_sel = "esmry-select" + G.tag, rn_nat = "ext-native" + G.tag, rn_natcb = "ext-native+convbase" + G.tag, rn_conv = "ext-from-conv" + G.tag;
     clean(RUN_NAME);
 
     // ---- write
@@ -539,7 +578,7 @@ static void run_case(CaseGroup& G, const std::string& script) {
 #ifdef C10_SELECT_PART
     // ---- selective load, forked: a sanitizer report (or crash) in the child is the finding
     {
-        Ctx c{"esmry-select", cfg, casestr, S.fmt};
+        Ctx c{rn_sel, cfg, casestr, S.fmt};
         const std::string resfile = g_dir + "/child.res", errfile = g_dir + "/child.err";
         fs::remove(resfile); fs::remove(errfile);
         const int rc = child_select(spec, withbase, e, c, pos, resfile, errfile);
@@ -584,18 +623,18 @@ static void run_case(CaseGroup& G, const std::string& script) {
 #else
     // ---- reader 1: ESmry, full load
     try {
-        Ctx c{"esmry-full", cfg, casestr, S.fmt}; Tm t("esmry-full");
+        Ctx c{rn_full, cfg, casestr, S.fmt}; Tm t("esmry-full");
         EclIO::ESmry sm(spec, withbase);
         sm.loadData();
         check_axis(sm, e, c, e.rs_legacy, true);
         check_esmry_extra(sm, e, c);
         check_values(sm, e, c, {});
         R->count("reads_esmry_full");
-    } catch (const std::exception& ex) { viol({"esmry-full", cfg, casestr, S.fmt}, "throws", std::string("reader threw: ") + std::string(ex.what()).substr(0, 200)); }
+    } catch (const std::exception& ex) { viol({rn_full, cfg, casestr, S.fmt}, "throws", std::string("reader threw: ") + std::string(ex.what()).substr(0, 200)); }
 
     // ---- reader 2: ESmry, selective load of the listed positions, then of all other positions, then lazy get()
     try {
-        Ctx c{"esmry-select", cfg, casestr, S.fmt}; Tm t("esmry-select");
+        Ctx c{rn_sel, cfg, casestr, S.fmt}; Tm t("esmry-select");
         EclIO::ESmry sm(spec, withbase);
         std::vector<std::string> vl; for (int p : pos) vl.push_back(S.vec.rkey[p]);
         sm.loadData(vl);
@@ -609,20 +648,20 @@ static void run_case(CaseGroup& G, const std::string& script) {
         check_values(lazy, e, c, pos);
         R->count("reads_esmry_select");
         access_orders([&] { return std::make_unique<EclIO::ESmry>(spec, withbase); }, e, c);
-    } catch (const std::exception& ex) { viol({"esmry-select", cfg, casestr, S.fmt}, "throws", std::string("reader threw: ") + std::string(ex.what()).substr(0, 200)); }
+    } catch (const std::exception& ex) { viol({rn_sel, cfg, casestr, S.fmt}, "throws", std::string("reader threw: ") + std::string(ex.what()).substr(0, 200)); }
 
     // ---- reader 4 (before 3: make_esmry_file refuses to overwrite): the writer's own ESMRY
     const std::string esmry = g_dir + "/" + RUN_NAME + ".ESMRY";
     if (!S.fmt) {
-        Ctx c{"ext-native", cfg, casestr, S.fmt}; Tm t("ext-native");
+        Ctx c{rn_nat, cfg, casestr, S.fmt}; Tm t("ext-native");
         try {
             if (!fs::exists(esmry)) viol(c, "count", "the writer was asked for ESMRY output and the final write produced no " + std::string(RUN_NAME) + ".ESMRY");
             else {
                 {
                     EclIO::ExtESmry ex(esmry, withbase);
                     ex.loadData();
-                    check_axis(ex, e, c, e.rs_flag, false);
                     check_values(ex, e, c, {});
+                    check_axis(ex, e, c, e.rs_flag, false);
                     R->count("reads_ext_native");
                     access_orders([&] { return std::make_unique<EclIO::ExtESmry>(esmry, withbase); }, e, c);
                 }
@@ -631,7 +670,7 @@ static void run_case(CaseGroup& G, const std::string& script) {
                     const std::string besmry = g_dir + "/" + BASE_NAME + ".ESMRY", keep = g_dir + "/keep.ESMRY";
                     fs::rename(besmry, keep);
                     try {
-                        Ctx c2{"ext-native+convbase", cfg, casestr, S.fmt};
+                        Ctx c2{rn_natcb, cfg, casestr, S.fmt};
                         EclIO::ESmry bs(g_dir + "/" + BASE_NAME + ".SMSPEC");
                         if (!bs.make_esmry_file()) viol(c2, "throws", "make_esmry_file() of the base run returned false");
                         else {
@@ -641,7 +680,7 @@ static void run_case(CaseGroup& G, const std::string& script) {
                             check_values(ex, e, c2, pos);
                             R->count("reads_ext_native_convbase");
                         }
-                    } catch (const std::exception& ex) { viol({"ext-native+convbase", cfg, casestr, S.fmt}, "throws", std::string("reader threw: ") + std::string(ex.what()).substr(0, 200)); }
+                    } catch (const std::exception& ex) { viol({rn_natcb, cfg, casestr, S.fmt}, "throws", std::string("reader threw: ") + std::string(ex.what()).substr(0, 200)); }
                     fs::remove(besmry);
                     fs::rename(keep, besmry);
                 }
@@ -652,7 +691,7 @@ static void run_case(CaseGroup& G, const std::string& script) {
 
     // ---- reader 3: SMSPEC -> ESMRY conversion, read with ExtESmry
     try {
-        Ctx c{"ext-from-conv", cfg, casestr, S.fmt}; Tm t("ext-from-conv");
+        Ctx c{rn_conv, cfg, casestr, S.fmt}; Tm t("ext-from-conv");
         bool made;
         { EclIO::ESmry sm(spec); made = sm.make_esmry_file(); }
         if (!made) viol(c, "throws", "make_esmry_file() returned false although no ESMRY file existed");
@@ -679,7 +718,7 @@ static void run_case(CaseGroup& G, const std::string& script) {
                 if (mine) fs::remove(besmry);
             }
         }
-    } catch (const std::exception& ex) { viol({"ext-from-conv", cfg, casestr, S.fmt}, "throws", std::string("reader threw: ") + std::string(ex.what()).substr(0, 200)); }
+    } catch (const std::exception& ex) { viol({rn_conv, cfg, casestr, S.fmt}, "throws", std::string("reader threw: ") + std::string(ex.what()).substr(0, 200)); }
     fs::remove(esmry);
 #endif
 }
@@ -726,12 +765,12 @@ static void run_root_case(int L, char form, bool fmt, bool unif, int r, const st
     R->evaluations++;
     const std::string cfg = std::string(fmt ? "fmt" : "unf") + ":" + (unif ? "unif" : "multi");
     const std::string rp = "{\"case\": " + vf::jstr(casestr) + "}";
-    const int saveNX = NX; NX = 3;
+    set_grid(3, 3, 3, false);
     const int N = 2, sv = L % 2;
     auto cleanup = [&] {
         clean(RUN_NAME);
         if (!pl.topdir.empty()) fs::remove_all(g_dir + "/" + pl.topdir); else clean(pl.bname + ".");
-        NX = saveNX;
+        set_grid(17, 17, 17, false);
     };
     try {
         clean(RUN_NAME);
@@ -847,12 +886,13 @@ int main(int argc, char** argv) {
 #ifdef C10_SELECT_PART
     const int maxlen = run.thorough() ? 3 : 2;
     const std::vector<int> bases = {0, 1};
-    run.rule = "selective load ESmry::loadData(vectList) in a forked child of the sanitizer build: P=N+4 in {5,6,7,999,1000,1001 (thorough +1002,2000,2001,3001)} x all scripts of length <= " + std::to_string(maxlen) + " over {m,M,w} x FMTOUT x UNIFOUT x {no base, base restarted at 1}; vectors at PARAMS positions first/last/around multiples of 1000; sanitizer report or crash of the child = finding, else value oracle";
+    run.rule = "selective load ESmry::loadData(vectList) in a forked child of the sanitizer build: P=N+4 in {5,6,7,999,1000,1001 (thorough +1002,2000,2001,3001)} x all scripts of length <= " + std::to_string(maxlen) + " over {m,M,w} x FMTOUT x UNIFOUT x {no base, base restarted at 1}; vectors at PARAMS positions first/last/around multiples of 1000; sanitizer report or crash of the child = finding, else value oracle; the same for the grid shapes {3x3x3, 4x2x3, 2x4x3, 5x1x2, 1x5x2, 2x3x1} with one BPR per cell + CPR/COFR per layer";
 #else
     const int maxlen = run.thorough() ? 4 : 3;
     g_order_depth = run.thorough() ? 3 : 2;
     const std::vector<int> bases = {0, 1, 2};
     run.rule = "N BPR vectors, N in {1..12} u {k*1000+d-4: k=1..4, |d|<=" + std::string(run.thorough() ? "5" : "2") + "} u {4500} (total PARAMS count P=N+4 straddles every multiple of 1000) x ALL step scripts of length <= " + std::to_string(maxlen) + " (N=1: <= " + std::to_string(maxlen + 2) + ") over {m: substep, M: closing ministep, w: write} x FMTOUT x UNIFOUT x {no base, base run restarted at r=1,2}; readers ESmry full, ESmry selective (+lazy get of every vector), conversion->ExtESmry, writer's ESMRY->ExtESmry (unformatted only); for P in 4..8 additionally every sequence of <= " + std::to_string(run.thorough() ? 3 : 2) + " access operations over {dates, get(K1), get(Klast), loadData({K1,K2}), loadData with a repeated key, loadData with TIME in the middle, loadData(), get_at_rstep} on ONE fresh ESmry / ExtESmry object followed by the comparison of all vectors; all vectors x all ministeps compared with float(SummaryState) fingerprints, dates, report-step positions, units, start date; distinct = distinct file byte strings"
+               " || grid shape: dims in {3x3x3 (control), 4x2x3, 2x4x3, 5x1x2, 1x5x2, 2x3x1}, one BPR vector for EVERY cell + CPR and COFR of a well completed in every layer of column (NX,NY), x FMTOUT x UNIFOUT x {no base, base restarted at 1} x scripts {mMm, Mw}; oracle for every reader: the keyword list is exactly the set of KW:i,j,k keys written (none missing, none twice, none unexpected), hasKey of every key, and every key returns the series of ITS cell (per-cell / per-layer fingerprints)"
                " || restart root length: base run written so that the root string stored in the restarted run's RESTART has exactly L characters, L in {" + [&] { std::string t; for (int L : root_lengths(run.thorough())) t += (t.empty() ? "" : ",") + std::to_string(L); return t; }() + "} (word boundaries 8k, the 9-word/17-word switch at 72, the maximum 132, and 133+ which the writer front-truncates) x {relative name, relative dir/name, absolute name, absolute dir/name} x FMTOUT x UNIFOUT x restart step " + std::string(run.thorough() ? "{1,2} x scripts {mM,Mm}" : "and script alternating with L") + " (N=2 on a 3x3x3 grid); oracle: SMSPEC RESTART words reassemble to the root given (last 132 characters beyond the maximum) in 9/17 words, DIMENS[5]=r, run alone = own steps, ESmry with base (full, selective), writer's ESMRY with base ESMRY (native and converted) = base history up to r + own steps with all vectors/dates/report steps; only a root > 132 may be refused by exception";
 #endif
     run.assumptions = {"reference model in the harness: series = values handed to add_timestep (float), time axis/report steps from the script",
@@ -860,6 +900,7 @@ int main(int argc, char** argv) {
                        "the last data-carrying write() of every script is is_final_summary=true (15 s ESMRY write throttle)",
                        "METRIC units only; START alternates between '1 JAN 2020' and '5 MAR 2021 06:30:15' with the parity of N; report steps start at 1 as in EclipseIO",
                        "base run and restarted run have the same vector set; base run is the fixed script mMwMmM (3 report steps)",
+                       "grid shape regime: corner-point-free DX/DY/DZ box grids, all cells active; connection vectors CPR/COFR only (pressure and oil rate handed in per connection); hasKey() is asked for every key when the run has <= 100 vectors",
                        "restart roots are made of the characters [A-Za-z0-9/] (no blanks, no dots: the readers take path::stem() of the root); absolute roots shorter than the scratch path + 2 cannot be built and are counted"};
 
     if (!run.replay_path.empty()) {
@@ -873,6 +914,17 @@ int main(int argc, char** argv) {
             return run.finish();
         }
 #endif
+        if (run.replay_path.rfind("SHAPE", 0) == 0) {
+            int x, y, z;
+            if (std::sscanf(run.replay_path.c_str(), "SHAPE dims=%dx%dx%d N=%d fmt=%d unif=%d base=%d script=%63s", &x, &y, &z, &N, &f, &u, &b, sbuf) != 8) { std::cerr << "bad case string\n"; return 2; }
+            set_grid(x, y, z, true);
+            auto G = make_group(N, f, u, b);
+            G->tag = "+shape"; G->prefix = "SHAPE dims=" + std::to_string(x) + "x" + std::to_string(y) + "x" + std::to_string(z) + " ";
+            run_case(*G, sbuf);
+            G.reset();
+            fs::current_path(fs::path(g_dir).parent_path()); if (!std::getenv("C10_KEEP")) fs::remove_all(g_dir);
+            return run.finish();
+        }
         if (std::sscanf(run.replay_path.c_str(), "N=%d fmt=%d unif=%d base=%d script=%63s", &N, &f, &u, &b, sbuf) != 5) { std::cerr << "bad case string\n"; return 2; }
         auto G = make_group(N, f, u, b);
         run_case(*G, sbuf);
@@ -898,6 +950,26 @@ int main(int argc, char** argv) {
             catch (const std::exception& ex) { run.violation("C10:harness:case", std::string("unexpected exception: ") + ex.what() + " [" + case_string(N, f, u, b, s) + "]"); }
         }
         G.reset();
+    }
+    // grid shape regime: one BPR per cell of a non-cubic grid + CPR/COFR of a well completed in every layer of column (NX,NY)
+    {
+        static const int shapes[][3] = {{3, 3, 3}, {4, 2, 3}, {2, 4, 3}, {5, 1, 2}, {1, 5, 2}, {2, 3, 1}};
+        for (auto& sh : shapes) for (int f = 0; f < 2 && !stop; ++f) for (int u = 0; u < 2 && !stop; ++u) for (int b : {0, 1}) {
+            if (!run.mine(gi++)) continue;
+            if (run.timed_out()) { stop = true; break; }
+            set_grid(sh[0], sh[1], sh[2], true);
+            const int N = sh[0] * sh[1] * sh[2];
+            try {
+                auto G = make_group(N, f, u, b);
+                G->tag = "+shape"; G->prefix = "SHAPE dims=" + std::to_string(sh[0]) + "x" + std::to_string(sh[1]) + "x" + std::to_string(sh[2]) + " ";
+                for (const char* sc_ : {"mMm", "Mw"}) {
+                    try { run_case(*G, sc_); }
+                    catch (const std::exception& ex) { run.violation("C10:harness:case", std::string("unexpected exception: ") + ex.what() + " [" + G->prefix + case_string(N, f, u, b, sc_) + "]"); }
+                }
+                run.count("grid_shape_groups");
+            } catch (const std::exception& ex) { run.violation("C10:harness:setup", std::string("deck/base run setup threw: ") + ex.what() + " shape " + std::to_string(sh[0]) + "x" + std::to_string(sh[1]) + "x" + std::to_string(sh[2])); }
+            set_grid(17, 17, 17, false);
+        }
     }
 #ifndef C10_SELECT_PART
     // restart root length regime
